@@ -79,13 +79,28 @@ class E(enum.Enum):
     D = "X"
 
 
+class G(enum.Enum):
+    P = 1
+    Q = "Ab"
+    R = b"Ab"
+    S = None
+    T = 2
+    U = "nan"
+    V = "a\nb"
+    W = 1.5
+
+
+ENUMS = (E, G)
+
+
 # --------------------------------------------------------------------------
 # option sets
 # --------------------------------------------------------------------------
 BASE = dict(case=False, strty=False, numty=False, sig=None, eps=None, excl=[], private=True, base_private=True,
-            trunc=None, tz=None, nan=False, enum=False)
+            trunc=None, tz=None, nan=False, enum=False, note=False)
 TYPES = {"int": int, "float": float, "str": str, "bytes": bytes, "bool": bool, "NoneType": type(None), "list": list,
-         "tuple": tuple, "dict": dict, "set": set, "frozenset": frozenset, "datetime": datetime.datetime, "E": E}
+         "tuple": tuple, "dict": dict, "set": set, "frozenset": frozenset, "datetime": datetime.datetime, "E": E, "G": G,
+         "Decimal": Decimal, "date": datetime.date, "time": datetime.time, "timedelta": datetime.timedelta}
 COQ_TY = {"int": "TInt", "float": "TFloat", "str": "TStr", "bytes": "TBytes", "bool": "TBool", "NoneType": "TNone",
           "list": "TList", "tuple": "TTuple", "dict": "TDict", "set": "TSet", "frozenset": "TFrozen"}
 MODELLED = ("case", "strty", "numty", "sig", "eps", "excl", "private")
@@ -134,6 +149,23 @@ def all_specs(rng, modelled_only):
     return out
 
 
+def sub_specs(sp):
+    """[(option name, the option set reduced to that single option)] when at least two options are active
+    (ignore_private_variables, on by default, and number_format_notation, a parameter of significant_digits, stay as they are)"""
+    act = [k for k in active(sp) if k != "private"]
+    if len(act) < 2:
+        return []
+    out = []
+    for k in act:
+        sub = dict(BASE)
+        sub["private"], sub["base_private"] = sp["private"], sp["base_private"]
+        sub[k] = sp[k]
+        if k == "sig":
+            sub["note"] = sp.get("note", False)
+        out.append((k, sub))
+    return out
+
+
 def active(sp):
     a = []
     for k in ("case", "strty", "numty", "nan", "enum"):
@@ -178,6 +210,8 @@ def kwargs_of(sp, base=False):
         kw["ignore_nan_inequality"] = True
     if sp["enum"]:
         kw["use_enum_value"] = True
+    if sp.get("note"):
+        kw["number_format_notation"] = "e"
     return kw
 
 
@@ -214,14 +248,20 @@ def lit(v):
         return "frozenset([" + ", ".join(lit(x) for x in v) + "])"
     if isinstance(v, set):
         return "set([" + ", ".join(lit(x) for x in v) + "])"
-    if isinstance(v, E):
-        return "E." + v.name
+    if isinstance(v, ENUMS):
+        return type(v).__name__ + "." + v.name
+    if isinstance(v, datetime.time):
+        return "tm(%d,%d,%d,%d)" % (v.hour, v.minute, v.second, v.microsecond)
+    if isinstance(v, datetime.timedelta):
+        return "td(%d)" % (v // USEC1)
+    if isinstance(v, datetime.date) and not isinstance(v, datetime.datetime):
+        return "date(%d,%d,%d)" % (v.year, v.month, v.day)
     if isinstance(v, Decimal):
         return "Decimal(%r)" % str(v)
     if np is not None and isinstance(v, np.generic):
         return "np.%s(%r)" % (type(v).__name__, v.item())
     if isinstance(v, float) and v != v:
-        return "float('nan')"
+        return "nan(%d)" % nan_id(v)
     if isinstance(v, datetime.datetime):
         if v.tzinfo is None:
             return "dt(%d,%d,%d,%d,%d,%d,%d)" % (v.year, v.month, v.day, v.hour, v.minute, v.second, v.microsecond)
@@ -235,8 +275,51 @@ def _dt(y, mo, d, h, mi, s, us, off=None):
     return datetime.datetime(y, mo, d, h, mi, s, us, tzinfo=tz)
 
 
+USEC1 = datetime.timedelta(microseconds=1)
+_NAN_OBJ, _NAN_NUM = {}, {}      # number -> nan object, id(object) -> number: identity of nan objects survives lit / unlit
+
+
+def nan_id(v):
+    k = _NAN_NUM.get(id(v))
+    if k is None or _NAN_OBJ.get(k) is not v:
+        k = len(_NAN_OBJ)
+        _NAN_OBJ[k] = v
+        _NAN_NUM[id(v)] = k
+    return k
+
+
+def nan_obj(k):
+    if k not in _NAN_OBJ:
+        v = float("nan")
+        _NAN_OBJ[k] = v
+        _NAN_NUM[id(v)] = k
+    return _NAN_OBJ[k]
+
+
+def has_nan_obj(v):
+    if isinstance(v, (list, tuple, set, frozenset)):
+        return any(has_nan_obj(x) for x in v)
+    if isinstance(v, dict):
+        return any(has_nan_obj(k) or has_nan_obj(x) for k, x in v.items())
+    return isinstance(v, float) and v != v
+
+
+class Packed(str):
+    pass
+
+
+def pack(v):
+    """pickling a job for a pool worker loses the identity of float objects; values with nan objects travel as their literal"""
+    return Packed(lit(v)) if has_nan_obj(v) else v
+
+
+def unpack(v):
+    return unlit(v) if isinstance(v, Packed) else v
+
+
 def unlit(s):
-    return eval(s, {"__builtins__": {"set": set, "frozenset": frozenset, "float": float}, "E": E, "dt": _dt,
+    return eval(s, {"__builtins__": {"set": set, "frozenset": frozenset, "float": float}, "E": E, "G": G, "dt": _dt,
+                    "tm": datetime.time, "td": lambda us: datetime.timedelta(microseconds=us), "date": datetime.date, "nan": nan_obj,
                     "True": True, "False": False, "None": None, "Decimal": Decimal, "np": np, "inf": float("inf")})
 
 
@@ -265,6 +348,8 @@ def numx_atom(rng):
 
 def gen_atom(rng, rich=False, nan_ok=False):
     r = rng.random()
+    if rich and _XU and rng.random() < 0.2:
+        return gen_xatom(rng, nan_ok)
     if rich and _NUMX and not _XU and r < 0.45:
         return numx_atom(rng)
     if r < 0.08:
@@ -284,12 +369,34 @@ def gen_atom(rng, rich=False, nan_ok=False):
         return rng.choice(BYTS)
     k = rng.random()
     if _XU:
-        return gen_dt(rng)
+        return gen_xatom(rng, nan_ok)
     if k < 0.3:
         return float("nan") if nan_ok else rng.choice(list(E))
     if k < 0.6:
         return rng.choice(list(E))
     return gen_dt(rng)
+
+
+XDECS = ["1.5", "1.50", "2", "-0.25", "3.125", "1.1", "100.004", "0.1", "2.675", "12.25", "0", "1E+2", "0.30", "7.5"]
+NANS = [float("nan") for _ in range(3)]      # a small pool of nan OBJECTS: the same object can occur on both sides and twice in a value
+
+
+def gen_xatom(rng, nan_ok=False, key=False):
+    """an atom of the kinds the extended model adds: datetime, nan, Enum member, Decimal, date, time, timedelta"""
+    k = rng.random()
+    if k < 0.22:
+        return gen_dt(rng)
+    if k < 0.40:
+        return rng.choice(NANS) if (nan_ok or rng.random() < 0.5) else gen_dt(rng)
+    if k < 0.62:
+        return rng.choice(list(E) + list(G))
+    if k < 0.78:
+        return Decimal(rng.choice(XDECS))
+    if k < 0.86:
+        return datetime.date(2024, rng.randint(1, 12), rng.randint(1, 28))
+    if k < 0.94:
+        return datetime.time(rng.randint(0, 23), rng.randint(0, 59), rng.randint(0, 59), rng.choice([0, 0, 250000, 500000, 15625]))
+    return datetime.timedelta(days=rng.randint(-2, 3), seconds=rng.randint(0, 3), microseconds=rng.choice([0, 0, 7]))
 
 
 def gen_dt(rng):
@@ -320,7 +427,7 @@ def gen_key(rng, bytes_ok, numeric_ok, rich=False, nan_ok=False):
     if bytes_ok:
         return rng.choice(BYTS[:6])
     if rich and rng.random() < 0.5:
-        return gen_dt(rng) if _XU else rng.choice([E.A, E.B, gen_dt(rng), float("nan") if nan_ok else E.C])
+        return gen_xatom(rng, nan_ok, True) if _XU else rng.choice([E.A, E.B, gen_dt(rng), float("nan") if nan_ok else E.C])
     return rng.choice(KEYSTR)
 
 
@@ -335,6 +442,10 @@ def distinct(items):
     out = []
     for k in items:
         if all(not _eq(k, q) for q in out) and not (isinstance(k, float) and k != k and any(isinstance(q, float) and q != q for q in out)):
+            try:
+                hash(k)
+            except TypeError:
+                continue
             out.append(k)
     return out
 
@@ -507,14 +618,30 @@ def alt_atom(rng, a, sp, pos, rich, p):
         if b is not None and not (type(b) is type(a) and b == a):
             cands.append((b, "excl"))
     if sp["nan"] and is_nan(a):
-        cands.append((float("nan"), "nan"))
+        cands.append((rng.choice([q for q in NANS if q is not a] + [float("nan")]), "nan"))
     if sp["enum"]:
-        if isinstance(a, E):
-            cands.append((a.value, "enum"))
+        if isinstance(a, ENUMS):
+            if not (pos == "leaf" and isinstance(a.value, (str, bytes)) and False):
+                cands.append((a.value, "enum"))
+            for m in list(E) + list(G):
+                if m is not a and type(m) is not type(a) and type(m.value) is type(a.value) and m.value == a.value:
+                    cands.append((m, "enum"))
         else:
-            for m in E:
+            for m in list(E) + list(G):
                 if type(m.value) is type(a) and m.value == a:
                     cands.append((m, "enum"))
+    if sp["trunc"] and type(a) is datetime.time:
+        u = sp["trunc"]
+        kw = {"microsecond": rng.choice([0, 250000, 500000, 984375])}
+        if u in ("minute", "hour", "day"):
+            kw["second"] = rng.randint(0, 59)
+        if u in ("hour", "day"):
+            kw["minute"] = rng.randint(0, 59)
+        if u == "day":
+            kw["hour"] = rng.randint(0, 23)
+        b = a.replace(**kw)
+        if b != a:
+            cands.append((b, "trunc"))
     if isinstance(a, datetime.datetime):
         if sp["trunc"]:
             u = sp["trunc"]
@@ -717,10 +844,14 @@ def features(a, b):
     ks = walk_keys(a, []) + walk_keys(b, [])
     f = set()
     at = all_atoms_of(a, []) + all_atoms_of(b, [])
-    if any(isinstance(x, E) for x in at):
+    if any(isinstance(x, ENUMS) for x in at):
         f.add("has_enum")
-    if any(isinstance(x, (datetime.datetime, datetime.date, datetime.time)) for x in at):
+    if any(isinstance(x, (datetime.datetime, datetime.date, datetime.time, datetime.timedelta)) for x in at):
         f.add("has_datetime")
+    if any(isinstance(x, (datetime.date, datetime.timedelta)) and not isinstance(x, datetime.datetime) for x in at):
+        f.add("has_date_td")
+    if any(isinstance(x, datetime.time) for x in at):
+        f.add("has_time")
     if any(isinstance(x, float) and (x != x or math.isinf(x)) for x in at):
         f.add("has_nan_inf")
     if np is not None and any(isinstance(x, np.floating) for x in at):
@@ -740,8 +871,14 @@ def features(a, b):
         f.add("bytes_key")
     if any(isinstance(k, datetime.datetime) for k in ks):
         f.add("datetime_key")
-    if any(isinstance(k, E) for k in ks):
+    if any(isinstance(k, ENUMS) for k in ks):
         f.add("enum_key")
+    if any(isinstance(k, ENUMS) and isinstance(k.value, (int, float)) for k in ks):
+        f.add("enum_key_num")
+    if any(isinstance(k, ENUMS) and isinstance(k.value, bytes) for k in ks):
+        f.add("enum_key_bytes")
+    if any(isinstance(k, (datetime.date, datetime.time, datetime.timedelta)) and not isinstance(k, datetime.datetime) for k in ks):
+        f.add("date_time_key")
     if any(is_nan(k) for k in ks):
         f.add("nan_key")
     nums = {}
@@ -765,6 +902,10 @@ def features(a, b):
         f.add("set_alias")
     if any(isinstance(x, bool) for x in sm):
         f.add("bool_set_member")
+    if any(isinstance(x, datetime.timedelta) for x in sm):
+        f.add("timedelta_set_member")
+    if any(isinstance(x, ENUMS) and x.value is None for x in at):
+        f.add("enum_none")
     return sorted(f)
 
 
@@ -783,6 +924,8 @@ def run_dd(a, b, **kw):
 
 
 def strings_of(v, acc):
+    if isinstance(v, ENUMS):
+        v = v.value          # under use_enum_value the member's value reaches _diff_str
     if isinstance(v, (str, bytes)):
         acc.add(v if isinstance(v, str) else v.decode("latin-1"))
     elif isinstance(v, (list, tuple)):
@@ -897,9 +1040,10 @@ def model_case(args):
 # --------------------------------------------------------------------------
 EPOCH = datetime.datetime(1970, 1, 1)
 USEC = datetime.timedelta(microseconds=1)
-XHDR = ("From DD Require Import Base.PyStr Options.OptModel Options.OptDtModel Options.XValue Options.XModel Options.XShow.\n"
+XHDR = ("From DD Require Import Base.PyStr Options.OptModel Options.OptDtModel Options.YValue Options.YModel Options.YShow.\n"
         "Local Open Scope Z_scope.")
-COQ_XTY = dict(COQ_TY, datetime="TDatetime")
+COQ_XTY = dict(COQ_TY, datetime="TDatetime", Decimal="TDecimal", date="TDate", time="TTime", timedelta="TTimedelta",
+               E='(TEnum (s2p "E"))', G='(TEnum (s2p "G"))')
 TUNITS = {None: "None", "second": "(Some USecond)", "minute": "(Some UMinute)", "hour": "(Some UHour)", "day": "(Some UDay)"}
 
 
@@ -909,15 +1053,50 @@ def dt_parts(d):
     return us, off
 
 
+def time_us(t):
+    return ((t.hour * 60 + t.minute) * 60 + t.second) * 1000000 + t.microsecond
+
+
+def dec_parts(a):
+    sign, digits, exp = a.as_tuple()
+    m = int("".join(str(x) for x in digits) or "0")
+    return (-m if sign else m), exp
+
+
+def x_ok_evalue(v):
+    if v is None or isinstance(v, bytes):
+        return True
+    if isinstance(v, str):
+        return v.isascii()
+    if type(v) is int:
+        return abs(v) < 2 ** 53
+    if type(v) is float:
+        return math.isfinite(v) and abs(v) < 1e15 and not (v == 0 and math.copysign(1, v) < 0)
+    return False
+
+
 def x_ok_atom(a):
     if a is None or isinstance(a, (bool, str, bytes)):
         return not isinstance(a, str) or a.isascii()
     if type(a) is int:
         return abs(a) < 2 ** 53
     if type(a) is float:
-        return math.isfinite(a) and abs(a) < 1e15 and not (a == 0 and math.copysign(1, a) < 0)
+        return a != a or (math.isfinite(a) and abs(a) < 1e15 and not (a == 0 and math.copysign(1, a) < 0))
     if type(a) is datetime.datetime:
         return a.tzinfo is None or (a.utcoffset().total_seconds() % 60 == 0 and a.utcoffset().microseconds == 0)
+    if type(a) is Decimal:
+        if not a.is_finite():
+            return False
+        m, e = dec_parts(a)
+        return -12 <= e <= 6 and abs(m) < 10 ** 15 and not (m == 0 and a.is_signed())
+    if type(a) is datetime.date:
+        return True
+    if type(a) is datetime.time:
+        return a.tzinfo is None and a.microsecond % 15625 == 0      # dyadic fraction of a second: time_to_seconds is exact
+    if type(a) is datetime.timedelta:
+        return abs(a.days) < 100000
+    if isinstance(a, ENUMS):
+        return x_ok_evalue(a.value)
     return False
 
 
@@ -931,6 +1110,21 @@ def in_xuniverse(v):
     return x_ok_atom(v)
 
 
+def x_evalue_to_coq(v):
+    if v is None:
+        return "ENone"
+    if isinstance(v, int):
+        return "(EInt %s)" % coq_Z(v)
+    if isinstance(v, float):
+        m, den = v.as_integer_ratio()
+        return "(EFloat %s %d%%N)" % (coq_Z(m), den.bit_length() - 1)
+    if isinstance(v, str):
+        return "(EStr %s)" % coq_pystr(v)
+    if isinstance(v, bytes):
+        return "(EBytes %s)" % coq_pystr(v)
+    raise TypeError(v)
+
+
 def x_atom_to_coq(a):
     if a is None:
         return "ANone"
@@ -938,9 +1132,13 @@ def x_atom_to_coq(a):
         return "(ABool true)"
     if a is False:
         return "(ABool false)"
+    if isinstance(a, ENUMS):
+        return "(AEnum %s %s %d%%nat %s)" % (coq_pystr(type(a).__name__), coq_pystr(a.name), list(type(a)).index(a), x_evalue_to_coq(a.value))
     if isinstance(a, int):
         return "(AInt %s)" % coq_Z(a)
     if isinstance(a, float):
+        if a != a:
+            return "(ANan %d%%nat)" % nan_id(a)
         m, den = a.as_integer_ratio()
         return "(AFloat %s %d%%N)" % (coq_Z(m), den.bit_length() - 1)
     if isinstance(a, str):
@@ -950,6 +1148,15 @@ def x_atom_to_coq(a):
     if isinstance(a, datetime.datetime):
         us, off = dt_parts(a)
         return "(ADt %s %s)" % (coq_Z(us), "None" if off is None else "(Some %s)" % coq_Z(off))
+    if isinstance(a, Decimal):
+        m, e = dec_parts(a)
+        return "(ADec %s %s)" % (coq_Z(m), coq_Z(e))
+    if isinstance(a, datetime.date):
+        return "(ADate %s %s %s)" % (coq_Z(a.year), coq_Z(a.month), coq_Z(a.day))
+    if isinstance(a, datetime.time):
+        return "(ATime %s)" % coq_Z(time_us(a))
+    if isinstance(a, datetime.timedelta):
+        return "(ATd %s)" % coq_Z(a // USEC)
     raise TypeError(a)
 
 
@@ -972,9 +1179,13 @@ def xcanon_atom(a):
         return None
     if a is True or a is False:
         return ["b", a]
+    if isinstance(a, ENUMS):
+        return ["E", type(a).__name__, a.name, xcanon_atom(a.value)]
     if isinstance(a, int):
         return ["i", a]
     if isinstance(a, float):
+        if a != a:
+            return "nan"
         m, den = a.as_integer_ratio()
         return ["f", m, den.bit_length() - 1]
     if isinstance(a, str):
@@ -984,6 +1195,15 @@ def xcanon_atom(a):
     if isinstance(a, datetime.datetime):
         us, off = dt_parts(a)
         return ["d", us, None if off is None else ["Some", off]]
+    if isinstance(a, Decimal):
+        m, e = dec_parts(a)
+        return ["D", m, e]
+    if isinstance(a, datetime.date):
+        return ["date", a.year, a.month, a.day]
+    if isinstance(a, datetime.time):
+        return ["time", time_us(a)]
+    if isinstance(a, datetime.timedelta):
+        return ["td", a // USEC]
     raise TypeError(a)
 
 
@@ -1009,7 +1229,9 @@ def xpath(level, use_t2=False):
         if rel is None:
             break
         parent = rel.parent
-        if isinstance(parent, (list, tuple)):
+        if type(rel).__name__ == "AttributeRelationship":
+            out.append(["a", rel.param])
+        elif isinstance(parent, (list, tuple)):
             out.append(["x", rel.param])
         elif isinstance(parent, dict):
             out.append(["k", xcanon_atom(rel.param)])
@@ -1038,10 +1260,10 @@ def xcoq_opts(sp):
     def dy(x):
         m, den = float(x).as_integer_ratio()
         return "(%s, %d%%N)" % (coq_Z(m), den.bit_length() - 1)
-    return "(mkOpts %s %s %s %s %s %s %s %s)" % (
+    return "(mkOpts %s %s %s %s %s %s %s %s %s %s %s)" % (
         core.coq_bool(sp["case"]), core.coq_bool(sp["strty"]), core.coq_bool(sp["numty"]),
         opt(sp["sig"], lambda d: "%d%%N" % d), opt(sp["eps"], dy), coq_list(COQ_XTY[t] for t in sp["excl"]),
-        TUNITS[sp["trunc"]], coq_Z(sp["tz"] or 0))
+        TUNITS[sp["trunc"]], coq_Z(sp["tz"] or 0), core.coq_bool(sp["nan"]), core.coq_bool(sp["enum"]), core.coq_bool(sp.get("note", False)))
 
 
 def xcoq_vlist(xs):
@@ -1052,9 +1274,28 @@ def has_datetime(*vals):
     return any(isinstance(x, datetime.datetime) for v in vals for x in all_atoms_of(v, []))
 
 
+def enum_meets_container(a, b):
+    """a str / bytes valued Enum member on one side, a container at the same position on the other (under use_enum_value the code
+    iterates the value as a sequence of characters: outside the model)"""
+    def cont(v):
+        return isinstance(v, (list, tuple, dict, set, frozenset))
+
+    def strenum(v):
+        return isinstance(v, ENUMS) and isinstance(v.value, (str, bytes))
+    if (cont(a) and strenum(b)) or (cont(b) and strenum(a)):
+        return True
+    if type(a) is type(b) and isinstance(a, (list, tuple)):
+        # positional pairs (zip mode); in the default mode an all-atom list never pairs an atom with a container
+        return any(enum_meets_container(x, y) for x, y in zip(a, b))
+    if isinstance(a, dict) and isinstance(b, dict):
+        return any(enum_meets_container(x, y) for x in a.values() for y in b.values())
+    return False
+
+
 def xmodel_case(args):
     """worker: one correspondence case of the extended model"""
     a, b, sp, zip_, thr, fam, name = args
+    a, b = unpack(a), unpack(b)
     kw = kwargs_of(sp)
     r = run_dd(a, b, view="tree", verbose_level=2, zip_ordered_iterables=zip_, threshold_to_diff_deeper=thr, **kw)
     if r[0] == "ok":
@@ -1069,22 +1310,30 @@ def xmodel_case(args):
     ops = coq_list("(%s, %s, %s)" % (xcoq_vlist(xs), xcoq_vlist(ys),
                                      coq_list("mkOp %s %d %d %d %d" % (D.TAGS[o[0]], o[1], o[2], o[3], o[4]) for o in op))
                    for xs, ys, op in ot)
-    expr = "xrun_sx %s %s %s %s %s %s" % (D.coq_udiff_table(ut), ops, coq_cfg(zip_, thr, sp["private"]), xcoq_opts(sp),
+    expr = "yrun_sx %s %s %s %s %s %s" % (D.coq_udiff_table(ut), ops, coq_cfg(zip_, thr, sp["private"]), xcoq_opts(sp),
                                            x_to_coq(a), x_to_coq(b))
     return expr, obs, tile_ok, len(ot)
 
 
+def xsingles(rng):
+    return [("case", mk(case=True)), ("strty", mk(strty=True)), ("numty", mk(numty=True)),
+            ("sig", mk(sig=rng.choice([0, 1, 2, 3, 4]))), ("eps", mk(eps=rng.choice([0.5, 1.0, 0.25, 0.01, 1e-3, 0.3, 0.0]))),
+            ("excl", mk(excl=rng.choice([["int"], ["str"], ["float"], ["datetime"], ["list"], ["dict"], ["int", "datetime"],
+                                         ["Decimal"], ["date"], ["E"], ["time", "timedelta"]]))),
+            ("private", mk(private=True, base_private=False)),
+            ("trunc", mk(trunc=rng.choice(["second", "minute", "hour", "day"]))), ("tz", mk(tz=rng.choice([0, 120, -300, 330, 345]))),
+            ("nan", mk(nan=True)), ("enum", mk(enum=True)), ("sig_e", mk(sig=rng.choice([0, 1, 2, 3]), note=True))]
+
+
 def xspecs(rng):
-    """the nine options of the extended model, singles and pairs"""
-    singles = [("case", mk(case=True)), ("strty", mk(strty=True)), ("numty", mk(numty=True)),
-               ("sig", mk(sig=rng.choice([0, 1, 2, 3, 4]))), ("eps", mk(eps=rng.choice([0.5, 1.0, 0.25, 0.01, 1e-3, 0.3]))),
-               ("excl", mk(excl=rng.choice([["int"], ["str"], ["float"], ["datetime"], ["list"], ["dict"], ["int", "datetime"]]))),
-               ("private", mk(private=True, base_private=False)),
-               ("trunc", mk(trunc=rng.choice(["second", "minute", "hour", "day"]))), ("tz", mk(tz=rng.choice([0, 120, -300, 330, 345])))]
+    """the options of the extended model, singles and pairs"""
+    singles = xsingles(rng)
     out = list(singles)
-    singles2 = list(singles)
+    singles2 = xsingles(rng)
     for i in range(len(singles)):
         for j in range(i + 1, len(singles)):
+            if {singles[i][0], singles2[j][0]} == {"sig", "sig_e"}:
+                continue
             out.append((singles[i][0] + "+" + singles2[j][0], combine(singles[i][1], singles2[j][1])))
     return out
 
@@ -1095,6 +1344,7 @@ def xspecs(rng):
 def oracle_case(args):
     """worker: the three clauses on one pair; returns a list of failures"""
     a, b, sp, zip_, fam, name, log = args
+    a, b = unpack(a), unpack(b)
     extra = {"zip_ordered_iterables": True} if zip_ else {}
     base = run_dd(a, b, **kwargs_of(sp, base=True), **extra)
     opt = run_dd(a, b, **kwargs_of(sp), **extra)
@@ -1120,6 +1370,17 @@ def oracle_case(args):
             fails.append(case("B", "the plain diff is empty but the diff under the options is not"))
     if base[0] == "ok" and opt[0] == "raised" and not (fam == "alt" and fails):
         fails.append(case("C", "DeepDiff accepts the inputs without the options and raises %s with them" % opt[1]))
+    # clause D (composition): an option added to other options only removes differences - for every single option S of the set,
+    # DeepDiff(a, b, **S) == {}  ==>  DeepDiff(a, b, **F) == {}
+    subs = sub_specs(sp) if (fam in ("alt", "alias") or name.startswith(("focus", "hand"))) else []
+    if subs and opt[0] == "ok" and opt[1]:
+        for oname, sub in subs:
+            r = run_dd(a, b, **kwargs_of(sub), **extra)
+            if r[0] == "ok" and not r[1]:
+                f = case("D", "the diff under %s alone is empty but the diff under the whole option set is not" % oname)
+                f["sub_option"] = oname
+                fails.append(f)
+                break
     nontrivial = lit(a) != lit(b)
     return fails, nontrivial, (base[0], opt[0], bool(base[0] == "ok" and not base[1]), bool(opt[0] == "ok" and not opt[1]))
 
@@ -1132,7 +1393,27 @@ def _cleaning(sp):
 
 
 def m_dtkey(c):
-    return c["exc"] == "TypeError" and _cleaning(c["spec"]) and "datetime_key" in c["features"] and c["clause"] in ("A", "C")
+    return (c["exc"] == "TypeError" and _cleaning(c["spec"]) and ("datetime_key" in c["features"] or "date_time_key" in c["features"])
+            and c["clause"] in ("A", "C"))
+
+
+def m_enum_none(c):
+    """use_enum_value: a member whose value is None against None is reported as None -> None"""
+    return (c["clause"] == "A" and c["exc"] is None and c["spec"]["enum"] and "enum_none" in c["features"]
+            and "'new_value': None, 'old_value': None" in str(c["with_options"]))
+
+
+def m_trunc_date(c):
+    """truncate_datetime: datetime_normalize calls .replace(microsecond=...) on date (TypeError) and timedelta (AttributeError) leaves"""
+    return (c["exc"] in ("TypeError", "AttributeError") and c["spec"]["trunc"] is not None and "has_date_td" in c["features"]
+            and c["clause"] in ("A", "C"))
+
+
+def m_sig_td_set(c):
+    """a timedelta set member under a precision: DeepHash._prep_number -> round(timedelta)"""
+    sp = c["spec"]
+    return (c["exc"] == "TypeError" and (sp["sig"] is not None or sp["numty"]) and "timedelta_set_member" in c["features"]
+            and c["clause"] in ("A", "C"))
 
 
 def m_sig0_nan(c):
@@ -1151,7 +1432,7 @@ def m_excl_default_list(c):
 def m_num_precision(c):
     """equal numbers of different type are rendered differently when the magnitude exceeds what the float detour of
     number_to_string keeps: '{:.12f}'.format(int) goes through float (ints beyond 2^53), numpy's round(x, 12) multiplies by 10^12"""
-    return (c["clause"] == "A" and c["exc"] is None and any(x.startswith("numty@") for x in c["altered"])
+    return (c["clause"] in ("A", "D") and c["exc"] is None and any(x.startswith("numty@") for x in c["altered"])
             and ("huge_number" in c["features"] or "numpy_float" in c["features"]))
 
 
@@ -1162,6 +1443,9 @@ def m_numpy_decimal(c):
 
 def m_excl_set(c):
     """a set member whose TYPE was changed (str <-> bytes, int <-> float) into / out of an excluded type"""
+    if c["clause"] == "D":
+        return (c["exc"] is None and bool(c["spec"]["excl"]) and c.get("sub_option") in ("strty", "numty")
+                and "set_item" in str(c["with_options"]))
     return (c["clause"] in ("A", "B") and c["exc"] is None and bool(c["spec"]["excl"])
             and any(x in ("strty@set", "numty@set") for x in c["altered"]) and "set_item" in str(c["with_options"]))
 
@@ -1196,6 +1480,8 @@ def m_eps_set(c):
 
 def m_eps_over_sig(c):
     sp = c["spec"]
+    if c["clause"] == "D":      # the rendering comparison (significant_digits, or the 12 digits of ignore_numeric_type_changes) found the numbers equal
+        return sp["eps"] is not None and c.get("sub_option") in ("sig", "numty") and c["exc"] is None
     return sp["eps"] is not None and sp["sig"] is not None and _only(c, ("sig",), ("leaf", "key", "set"))
 
 
@@ -1210,7 +1496,13 @@ def m_bytes_key_case(c):
 def m_enum_key(c):
     """use_enum_value at a dict key: not applied without a key-cleaning option; with one, the member's value is taken
     but not cleaned further (E.C -> 2.5 against the key 2.5 -> 'number:2.500000000000')"""
-    return _only(c, ("enum",), ("key",))
+    if not _only(c, ("enum",), ("key",)):
+        return False
+    sp = c["spec"]
+    if not _cleaning(sp):
+        return True
+    return (("enum_key_num" in c["features"] and (sp["sig"] is not None or sp["numty"]))
+            or ("enum_key_bytes" in c["features"] and sp["strty"]))
 
 
 def m_nan_key(c):
@@ -1226,30 +1518,33 @@ def m_trunc_tz(c):
     """truncation is done in the datetime's own zone BEFORE the conversion to default_timezone: two renderings of one
     instant in different zones truncate to different instants"""
     return (c["spec"]["trunc"] is not None and "has_datetime" in c["features"] and c["exc"] is None
-            and (c["clause"] == "B" or (c["clause"] == "A" and any(x.startswith("tz@") for x in c["altered"]))))
+            and (c["clause"] in ("B", "D") or (c["clause"] == "A" and any(x.startswith("tz@") for x in c["altered"]))))
 
 
 def m_collision(c):
-    return c["clause"] in ("A", "B") and c["exc"] is None and _cleaning(c["spec"]) and "clean_collision" in c["features"]
+    return c["clause"] in ("A", "B", "D") and c["exc"] is None and _cleaning(c["spec"]) and "clean_collision" in c["features"]
 
 
 def m_alias_key(c):
     sp = c["spec"]
-    return (c["clause"] == "B" and _cleaning(sp) and not sp["numty"] and sp["sig"] is not None and "alias_key" in c["features"])
+    return (c["clause"] in ("B", "D") and _cleaning(sp) and not sp["numty"] and sp["sig"] is not None and "alias_key" in c["features"])
 
 
 def m_tag_set(c):
-    return c["clause"] == "B" and "tag_like_set_member" in c["features"] and "set_item" in str(c["with_options"])
+    return c["clause"] in ("B", "D") and "tag_like_set_member" in c["features"] and "set_item" in str(c["with_options"])
 
 
 def m_memo_set(c):
     """plain run: 1 / 1.0 among set members share one hash through the memo table (K2); an option that changes the
     hash text of numbers (significant_digits) or drops members (exclude_types) interacts with it"""
-    return c["clause"] in ("A", "B") and c["exc"] is None and "set_alias" in c["features"] and "set_item" in str(c["with_options"])
+    return c["clause"] in ("A", "B", "D") and c["exc"] is None and "set_alias" in c["features"] and "set_item" in str(c["with_options"])
 
 
 MATCHERS = {
     "C11-DATETIME-KEY": m_dtkey,
+    "C11-ENUM-NONE": m_enum_none,
+    "C11-TRUNC-DATE": m_trunc_date,
+    "C11-SIG-TIMEDELTA-SET": m_sig_td_set,
     "C11-ENUM-TYPE": m_enum_type,
     "C11-SIG0-NAN": m_sig0_nan,
     "C11-EXCL-SET": m_excl_set,
@@ -1323,9 +1618,82 @@ def atom_level(ctx, n):
         kw = {k: v for k, v in kwargs_of(sp).items() if k in ("ignore_string_case", "ignore_string_type_changes",
                                                              "ignore_numeric_type_changes", "significant_digits")}
         exp = DeepHash(a, hasher=lambda s: s, **kw)[a]
-        xcases.append(("xhatom_sx %s %s" % (xcoq_opts(sp), x_atom_to_coq(a)), exp, {"hash_text_float": [repr(a), name]}))
+        xcases.append(("yhatom_sx %s %s" % (xcoq_opts(sp), x_atom_to_coq(a)), exp, {"hash_text_float": [repr(a), name]}))
         ctx.seen(("xha", name, repr(a)))
-    ctx.coq_cases("c11_xatoms", XHDR, xcases, shard=400, label="atom_level(hash text of dyadic floats, extended model)")
+    # ---- the numeric core of the extended model: number_to_string in both notations on int / float / Decimal / nan / bool,
+    #      float(Decimal), time_to_seconds, == across number types, equality of DeepHash texts of the new kinds of atoms
+    def rnd_float():
+        k = rng.random()
+        if k < 0.3:
+            e = rng.choice([1, 2, 3, 5, 8, 12])
+            return rng.randint(-(1 << (e + 10)), 1 << (e + 10)) / (1 << e)
+        if k < 0.6:
+            return round(rng.uniform(-500, 500), rng.randint(0, 6))
+        if k < 0.8:
+            return rng.choice([10.35, 2.675, 0.1 + 0.2, 12.25, 99.96, 0.000123, 1e-7, 0.5, 1.5, 2.5, 0.125, 1005.0, 0.045, 9.995, 0.05])
+        return rng.uniform(-3, 3) * 10 ** rng.randint(-5, 5)
+
+    def rnd_dec():
+        k = rng.random()
+        if k < 0.4:
+            return Decimal(rng.choice(XDECS))
+        if k < 0.8:
+            return Decimal(rng.randint(-10 ** 6, 10 ** 6)).scaleb(-rng.randint(0, 7))
+        return Decimal(rng.randint(-999, 999)).scaleb(rng.randint(-9, 4))
+    for _ in range(n):
+        d = rng.randint(0, 6)
+        note = rng.random() < 0.5
+        k = rng.random()
+        x = (rng.randint(-10 ** 6, 10 ** 6) if k < 0.2 else rnd_float() if k < 0.55 else rnd_dec() if k < 0.9
+             else rng.choice([True, False, float("nan"), datetime.timedelta(1), datetime.date(2024, 1, 2), "x"]))
+        if isinstance(x, float) and x == 0 and math.copysign(1, x) < 0:
+            x = 0.0
+        if not x_ok_atom(x):
+            continue
+        try:
+            r = number_to_string(x, significant_digits=d, number_format_notation="e" if note else "f")
+            exp = "asis" if r is x else ["ok", r]
+        except Exception as ex:  # noqa
+            exp = ["raised", type(ex).__name__]
+        xcases.append(("ynstr_sx %s %d%%N %s" % (xcoq_opts(mk(note=note)), d, x_atom_to_coq(x)), exp,
+                       {"number_to_string": [lit(x), d, "e" if note else "f"]}))
+        ctx.seen(("yns", lit(x), d, note))
+    for _ in range(n // 2):
+        x = rnd_dec()
+        if not x_ok_atom(x):
+            continue
+        m, e = dec_parts(x)
+        fm, fden = float(x).as_integer_ratio()
+        xcases.append(("yfloat_sx %s %s" % (coq_Z(m), coq_Z(e)), [fm, fden.bit_length() - 1], {"float(Decimal)": str(x)}))
+        t = datetime.time(rng.randint(0, 23), rng.randint(0, 59), rng.randint(0, 59), rng.choice([0, 250000, 500000, 15625, 984375, 125000]))
+        from deepdiff.helper import time_to_seconds
+        xcases.append(("ysecs_sx %s" % coq_Z(time_us(t)), xcanon_atom(time_to_seconds(t)), {"time_to_seconds": lit(t)}))
+        ctx.seen(("yfl", str(x), lit(t)))
+    pool_num = [1, 1.0, True, 0, False, 1.5, Decimal("1.5"), Decimal("1.50"), Decimal("1"), 2, Decimal("2"), 0.1, Decimal("0.1"), 2.5, Decimal("1E+2"), 100,
+                NANS[0], NANS[1], E.A, G.P, E.C, G.W, None, G.S, "x", b"x", E.B]
+    for _ in range(n // 2):
+        a, b = rng.choice(pool_num), rng.choice(pool_num)
+        xcases.append(("ypyeq_sx %s %s" % (x_atom_to_coq(a), x_atom_to_coq(b)), bool(a is b or _eq(a, b)), {"lookup_eq": [lit(a), lit(b)]}))
+        ctx.seen(("ypy", lit(a), lit(b)))
+    hspecs = [mk(), mk(case=True), mk(strty=True), mk(numty=True), mk(sig=1), mk(sig=2, note=True), mk(enum=True), mk(enum=True, case=True),
+              mk(enum=True, sig=1), mk(numty=True, enum=True), mk(tz=120)]
+    hpool = [E.A, E.B, E.D, G.P, G.Q, G.R, G.T, G.W, E.C, 1, "x", "X", "Ab", b"Ab", 1.5, 2, 2.5, Decimal("1.5"), Decimal("1.50"), Decimal("1.54"),
+             Decimal("2"), datetime.date(2024, 1, 2), datetime.date(2024, 1, 3), datetime.time(1, 2, 3), datetime.time(1, 2, 3, 500000),
+             datetime.time(1, 2, 4), datetime.timedelta(1), datetime.timedelta(seconds=86400), datetime.timedelta(2), NANS[0], NANS[1], 1.54,
+             _dt(2024, 1, 2, 0, 0, 0, 0), None, G.S]
+    for _ in range(n):
+        sp = rng.choice(hspecs)
+        a, b = rng.choice(hpool), rng.choice(hpool)
+        kw = {k: v for k, v in kwargs_of(sp).items() if k in ("ignore_string_case", "ignore_string_type_changes", "ignore_numeric_type_changes",
+                                                             "significant_digits", "number_format_notation", "use_enum_value", "default_timezone")}
+        try:
+            exp = DeepHash(a, hasher=lambda s: s, **kw)[a] == DeepHash(b, hasher=lambda s: s, **kw)[b]
+        except Exception:  # noqa  (timedelta under a precision: C11-SIG-TIMEDELTA-SET)
+            continue
+        xcases.append(("yhash_eq_sx %s %s %s" % (xcoq_opts(sp), x_atom_to_coq(a), x_atom_to_coq(b)), bool(exp),
+                       {"hash_text_equal": [lit(a), lit(b), active(sp)]}))
+        ctx.seen(("yhe", lit(a), lit(b), str(active(sp))))
+    ctx.coq_cases("c11_xatoms", XHDR, xcases, shard=400, label="atom_level(extended model: hash texts, number_to_string f/e on int/float/Decimal/nan, float(Decimal), time_to_seconds, ==)")
     # datetimes: helper.datetime_normalize + the comparison of _diff_datetime against dt_instant / dt_changed
     from deepdiff.helper import datetime_normalize
     epoch_utc = datetime.datetime(1970, 1, 1, tzinfo=datetime.timezone.utc)
@@ -1418,6 +1786,108 @@ def gen_pairs(rng, sp, n, rich):
                         b = b2
             fam = "rand"
         out.append((fam, a, b, log))
+    return out
+
+
+def focus_pairs(rng, n):
+    """[(name, spec, family, a, b, log)] - option COMBINATIONS on the leaves / keys where the options meet inside _diff and key cleaning:
+    nan leaves that are distinct objects on the two sides under ignore_nan_inequality x {math_epsilon (incl. 0), significant_digits,
+    ignore_numeric_type_changes}; bytes / Enum dict keys with upper-case letters under ignore_string_case x
+    {ignore_string_type_changes, use_enum_value}"""
+    out = []
+    for _ in range(n):
+        # ---- nan leaves ----
+        sp = mk(nan=rng.random() < 0.8)
+        r = rng.random()
+        if r < 0.4:
+            sp["eps"] = rng.choice([0.0, 0.0, 0.5, 1.0, 1e-3])
+        elif r < 0.65:
+            sp["sig"] = rng.choice([1, 2, 3, 0])
+        elif r < 0.85:
+            sp["numty"] = True
+        if rng.random() < 0.25:
+            sp["sig"] = rng.choice([1, 2])
+        if rng.random() < 0.15:
+            sp["numty"] = True
+        leaves = [rng.choice(NANS), rng.choice(NANS), rng.choice([1.5, 2, 1.25, 7, Decimal("1.5"), "nan", G.U, E.C, None])]
+        rng.shuffle(leaves)
+        shape = rng.choice(["list", "dict", "nested", "root", "tuple", "set", "key"])
+        others = [q for q in NANS] + [float("nan")]
+
+        def other(x):
+            if is_nan(x) and rng.random() < 0.8:
+                return rng.choice([q for q in others if q is not x])
+            if is_number(x) and sp["eps"] is not None and rng.random() < 0.5:
+                return x + type(x)(sp["eps"]) / 2 if not isinstance(x, int) else x
+            if rng.random() < 0.15:
+                return rng.choice([1.5, 2, NANS[0], "nan"])
+            return x
+        if shape == "list":
+            a = list(leaves); b = [other(x) for x in leaves]
+        elif shape == "tuple":
+            a = tuple(leaves[:2]) + ([],); b = tuple(other(x) for x in leaves[:2]) + ([],)
+        elif shape == "dict":
+            a = {"k%d" % i: x for i, x in enumerate(leaves)}; b = {k: other(x) for k, x in a.items()}
+        elif shape == "nested":
+            a = {"p": [leaves[0], [leaves[1]]], "q": (leaves[2],)}; b = {"p": [other(leaves[0]), [other(leaves[1])]], "q": (other(leaves[2]),)}
+        elif shape == "root":
+            a = leaves[0]; b = other(leaves[0])
+        elif shape == "set":
+            a = set(distinct(leaves)); b = set(distinct([other(x) for x in a]))
+        else:
+            a = {leaves[0]: 1, "z": leaves[1]}; b = {other(leaves[0]): 1, "z": other(leaves[1])}
+        fam, log = "rand", []
+        if sp["nan"] and shape not in ("key", "set") and rng.random() < 0.5:
+            # a strict copy: only nan leaves replaced by other nan objects
+            def other(x):      # noqa: F811
+                return rng.choice([q for q in others if q is not x]) if is_nan(x) else x
+            if shape == "list":
+                b = [other(x) for x in a]
+            elif shape == "tuple":
+                b = tuple(other(x) for x in a[:2]) + ([],)
+            elif shape == "dict":
+                b = {k: other(x) for k, x in a.items()}
+            elif shape == "nested":
+                b = {"p": [other(a["p"][0]), [other(a["p"][1][0])]], "q": (other(a["q"][0]),)}
+            else:
+                b = other(a)
+            fam, log = "alt", [("nan", "leaf")]
+        out.append(("focus:" + "+".join(active(sp)), sp, fam, a, b, log))
+        # ---- bytes / Enum dict keys with upper-case letters ----
+        sp = mk(case=rng.random() < 0.85)
+        r = rng.random()
+        if r < 0.45:
+            sp["strty"] = True
+        elif r < 0.85:
+            sp["enum"] = True
+        else:
+            sp["strty"] = sp["enum"] = True
+        if rng.random() < 0.15:
+            sp["sig"] = rng.choice([1, 2])
+        keypool = [b"Ab", b"AB", b"ab", "Ab", "ab", "AB", G.Q, G.R, E.D, E.B, G.P, E.A, 1, "x", "X", b"x", G.W, 1.5, G.S, None]
+        ks = distinct(rng.choice(keypool) for _ in range(rng.randint(1, 3)))
+
+        def okey(k):
+            r = rng.random()
+            if r < 0.3:
+                return k
+            v = k.value if isinstance(k, ENUMS) else k
+            c = []
+            if isinstance(v, (str, bytes)):
+                c += [v.lower(), v.upper(), v.swapcase()]
+                c += [x.decode("ascii") if isinstance(x, bytes) else x.encode("ascii") for x in list(c)]
+            else:
+                c.append(v)
+            c += [m for m in list(E) + list(G) if any(type(m.value) is type(x) and m.value == x for x in c)]
+            return rng.choice(c)
+        a = {k: rng.choice([1, "v", [1]]) for k in ks}
+        nk = [okey(k) for k in ks]
+        if len(distinct(nk)) != len(nk):
+            nk = ks
+        b = {q: (a[k] if rng.random() < 0.8 else 2) for k, q in zip(ks, nk)}
+        if rng.random() < 0.3:
+            a, b = {"outer": [a]}, {"outer": [b]}
+        out.append(("focus:" + "+".join(active(sp)), sp, "rand", a, b, []))
     return out
 
 
@@ -1532,6 +2002,14 @@ WITNESSES = [
     ("C11-EXCL-DEFAULT-LIST", [1, "x", 2, 1], [2, "x", 1, 3], mk(excl=["int"]), "nonempty"),
     ("C11-SIG0-NAN", [float("nan")], [1.0], mk(sig=0), "raises:ValueError"),
     ("C11-NUM-PRECISION", 123456789012345678, Decimal(123456789012345678), mk(numty=True), "nonempty"),
+    ("C11-ENUM-NONE", [None], [G.S], mk(enum=True), "nonempty"),
+    ("C11-TRUNC-DATE", {"a": datetime.date(2020, 1, 1)}, {"a": datetime.date(2020, 1, 1)}, mk(trunc="hour"), "raises:TypeError"),
+    ("C11-TRUNC-DATE", {"a": datetime.timedelta(1)}, {"a": datetime.timedelta(1)}, mk(trunc="hour"), "raises:AttributeError"),
+    ("C11-SIG-TIMEDELTA-SET", {datetime.timedelta(1)}, {datetime.timedelta(1)}, mk(sig=1), "raises:TypeError"),
+    ("C11-DATETIME-KEY", {datetime.date(2020, 1, 1): 1}, {datetime.date(2020, 1, 1): 1}, mk(case=True, sig=1), "raises:TypeError"),
+    ("C11-ENUM-KEY", {E.A: 1}, {1: 1}, mk(enum=True), "nonempty"),
+    ("C11-ENUM-TYPE", {}, E.A, mk(enum=True), "raises:TypeError"),
+    ("C11-NAN-KEY", {float("nan"): 1}, {float("nan"): 1}, mk(nan=True), "nonempty"),
     ("C11-TRUNC-BEFORE-TZ", {"k": _dt(2024, 6, 1, 12, 40, 27, 0, 120)}, {"k": _dt(2024, 6, 1, 16, 25, 27, 0, 345)}, mk(trunc="hour"), "nonempty"),
 ]
 
@@ -1591,7 +2069,7 @@ def run(ctx):
             ojobs.append((a, b, sp, zip_, "rand", "hand", []))
     with mp.get_context("fork").Pool(core.NCPU) as pool:
         mres = pool.map(model_case, mjobs, chunksize=16)
-        ores = pool.map(oracle_case, ojobs, chunksize=16)
+        ores = pool.map(oracle_case, [(pack(j[0]), pack(j[1])) + tuple(j[2:]) for j in ojobs], chunksize=16)
     cases = []
     bad_tiles = 0
     for (expr, obs, tile_ok, ntab), job in zip(mres, mjobs):
@@ -1630,14 +2108,22 @@ def run(ctx):
             if D.set_alias(a, b) and (not sp["numty"] or sp["excl"]):
                 ctx.count("xcorr_skipped:set_alias(K2 memo)")
                 continue
-            if sp["numty"] and has_datetime(a, b):
-                ctx.count("xcorr_skipped:numty_with_datetime(C11-NUMGROUP-DATETIME)")
+            if sp["enum"] and enum_meets_container(a, b):
+                ctx.count("xcorr_skipped:str_valued_enum_member_meets_container")
                 continue
             xjobs.append((a, b, sp, zip_, thr, fam, name))
+    for name, sp, fam, a, b, log in focus_pairs(rng, 1500 if thorough else 160):
+        zip_ = rng.random() < 0.4
+        thr = 0 if rng.random() < 0.25 else 0.33
+        ojobs.append((a, b, sp, zip_, fam, name, log))
+        if not (in_xuniverse(a) and in_xuniverse(b)) or (sp["enum"] and enum_meets_container(a, b)):
+            ctx.count("xcorr_skipped:outside_universe")
+            continue
+        xjobs.append((a, b, sp, zip_, thr, "focus", name))
     _XU = False
     with mp.get_context("fork").Pool(core.NCPU) as pool:
-        xres = pool.map(xmodel_case, xjobs, chunksize=16)
-        ores = pool.map(oracle_case, ojobs, chunksize=16)
+        xres = pool.map(xmodel_case, [(pack(j[0]), pack(j[1])) + tuple(j[2:]) for j in xjobs], chunksize=16)
+        ores = pool.map(oracle_case, [(pack(j[0]), pack(j[1])) + tuple(j[2:]) for j in ojobs], chunksize=16)
     cases = []
     for (expr, obs, tile_ok, ntab), job in zip(xres, xjobs):
         a, b, sp, zip_, thr, fam, name = job
@@ -1646,6 +2132,23 @@ def run(ctx):
         ctx.count("xcorr_result:%s" % ("raised:" + obs[1] if obs[0] == "raised" else ("empty" if not obs[1] else "entries")))
         if has_datetime(a, b):
             ctx.count("xcorr:with_datetime")
+        ats = all_atoms_of(a, []) + all_atoms_of(b, [])
+        if any(is_nan(x) for x in ats):
+            ctx.count("xcorr:with_nan")
+            if sp["nan"]:
+                ctx.count("xcorr:with_nan_under_ignore_nan_inequality" + ("+eps" if sp["eps"] is not None else "") +
+                          ("+sig" if sp["sig"] is not None else "") + ("+numty" if sp["numty"] else ""))
+        if any(isinstance(x, ENUMS) for x in ats):
+            ctx.count("xcorr:with_enum_member" + ("_under_use_enum_value" if sp["enum"] else ""))
+        if any(isinstance(x, Decimal) for x in ats):
+            ctx.count("xcorr:with_decimal")
+        if any(isinstance(x, (datetime.date, datetime.time, datetime.timedelta)) and not isinstance(x, datetime.datetime) for x in ats):
+            ctx.count("xcorr:with_date_time_timedelta")
+        if sp.get("note"):
+            ctx.count("xcorr:notation_e")
+        ks = walk_keys(a, []) + walk_keys(b, [])
+        if sp["case"] and (sp["strty"] or sp["enum"]) and any(isinstance(k, bytes) or isinstance(k, ENUMS) for k in ks):
+            ctx.count("xcorr:bytes_or_enum_key_under_case+" + ("strty" if sp["strty"] else "") + ("enum" if sp["enum"] else ""))
         ctx.count("oracle_validity:opcode_tables", ntab)
         if not tile_ok:
             ctx.break_("correspondence", {"name": "opcode_validity", "case": lit(a) + " | " + lit(b)})
@@ -1659,7 +2162,7 @@ def run(ctx):
         for fam, a, b, log in gen_pairs(rng, sp, per_spec, True):
             ojobs.append((a, b, sp, rng.random() < 0.35, fam, name, log))
     with mp.get_context("fork").Pool(core.NCPU) as pool:
-        ores = pool.map(oracle_case, ojobs, chunksize=16)
+        ores = pool.map(oracle_case, [(pack(j[0]), pack(j[1])) + tuple(j[2:]) for j in ojobs], chunksize=16)
     report_oracle(ctx, ores, ojobs)
     ctx.note("options_in_model", list(MODELLED))
     ctx.note("options_oracle_only", list(UNMODELLED) + ["(no theorem covers these four; they are exercised by the direct oracle on the implementation)"])
